@@ -20,7 +20,7 @@ if ok:
         except Exception as e:
             print("warning: no props module for", c["property_id"], e)
             continue
-        for t in list(getattr(mod, "COQ_DEPS", [])) + [mod.PROPERTIES_FILE[:-2] + ".vo"]:
+        for t in list(getattr(mod, "COQ_DEPS", [])) + [f[:-2] + ".vo" for f in [mod.PROPERTIES_FILE] + list(getattr(mod, "EXTRA_PROPERTIES_FILES", []))]:
             if t not in targets:
                 targets.append(t)
     ok, out = common.coq_make(targets, timeout=3000)
